@@ -67,6 +67,10 @@ type backend struct {
 	ops                  []int
 	nLinked, nDed, nHuman int
 
+	// The device and address of the last dedicated / linked address change.
+	lastDipDev, lastLipDev agd.DeviceID
+	lastDip, lastLip       netip.Addr
+
 	// hot are keys touched by recent mutations: lookups prefer them, because
 	// stale and re-assigned keys are where the database can go wrong.
 	hot []key
@@ -193,9 +197,26 @@ func (b *backend) mutate() {
 		s.Logf("backend: device %s moved %s -> %s", d.id, from.id, to.id)
 	case op == 3 && len(devs) > 0: // linked IP: set, take over, swap or clear
 		i := t.Choose(len(devs), "lip-dev")
-		d := devs[i]
-		b.touch(d, owners[i])
 		ip := kernel.Pick(t, append([]netip.Addr{{}}, linkedPool[:b.nLinked]...), "lip")
+		if b.lastLipDev != "" && t.Chance(1, 2, "lip-flip-back") {
+			// The device that had an address last gets it back, or loses it
+			// again.
+			for j, o := range devs {
+				if o.id == b.lastLipDev {
+					i = j
+					if o.linked == b.lastLip {
+						ip = netip.Addr{}
+					} else {
+						ip = b.lastLip
+					}
+				}
+			}
+		}
+		d := devs[i]
+		if ip.IsValid() {
+			b.lastLipDev, b.lastLip = d.id, ip
+		}
+		b.touch(d, owners[i])
 		if ip.IsValid() {
 			b.hot = append(b.hot, key{kind: "lip", ip: ip})
 		}
@@ -215,9 +236,19 @@ func (b *backend) mutate() {
 		s.Logf("backend: device %s linked ip -> %v", d.id, ip)
 	case op == 4 && len(devs) > 0: // dedicated IPs
 		i := t.Choose(len(devs), "dip-dev")
-		d := devs[i]
-		b.touch(d, owners[i])
 		ip := kernel.Pick(t, dedPool[:b.nDed], "dip")
+		if b.lastDipDev != "" && t.Chance(1, 2, "dip-flip-back") {
+			// The same device and address as last time: an address taken away
+			// comes back to the device that had it.
+			for j, o := range devs {
+				if o.id == b.lastDipDev {
+					i, ip = j, b.lastDip
+				}
+			}
+		}
+		d := devs[i]
+		b.lastDipDev, b.lastDip = d.id, ip
+		b.touch(d, owners[i])
 		b.hot = append(b.hot, key{kind: "dip", ip: ip})
 		if containsAddr(d.ded, ip) {
 			d.ded = withoutAddr(d.ded, ip)
@@ -938,6 +969,13 @@ func run(s *kernel.Sim, _, cfg string) {
 	w.be.nDed = t.Range(1, len(dedPool), "swarm-ded")
 	w.be.nHuman = t.Range(1, len(humanPool), "swarm-human")
 	nProf := t.Range(1, 3, "profiles")
+	if cfg == "toggle" {
+		// Concentrated: one key of each kind going back and forth between
+		// very few devices of one profile, so that a key lost and regained
+		// (also by the same device) meets pending clean-ups.
+		w.be.ops = []int{0, 3, 4, 5}
+		w.be.nLinked, w.be.nDed, w.be.nHuman, nProf = 1, 1, 1, 1
+	}
 	for i := 0; i < nProf; i++ {
 		w.be.profs = append(w.be.profs, &tProf{id: agd.ProfileID(fmt.Sprintf("prof%d", i)), seed: t.Choose(1000, "prof-seed")})
 		w.be.stamp(w.be.profs[i])
@@ -951,7 +989,7 @@ func run(s *kernel.Sim, _, cfg string) {
 	cachePath := filepath.Join(cacheDir, "cache.pb")
 	w.db = w.newDB(cachePath, st)
 
-	crash := cfg != "nocrash"
+	crash := cfg != "nocrash" && cfg != "toggle"
 	s.DeferBackground = true
 	s.Invariant = func() {
 		if !crash || w.storing == nil {
